@@ -17,14 +17,16 @@
 (*  Quiesce       Idle, and the harness has drained every port and CU      *)
 (*  Panic         the CP panicked: never a behaviour                       *)
 (***************************************************************************)
-EXTENDS DispatchLedger, TraceLib, Json
+EXTENDS DispatchLedger, CUResource, TraceLib, Json
 
 TraceLog == ndJsonDeserialize("trace.ndjson")
 N == Len(TraceLog)
 
 VARIABLES l,    \* position in TraceLog
-          wc    \* 1: the placement algorithm of the run is work-conserving (round-robin, greedy); 0: partition
-tvars == <<lvars, l, wc>>
+          wc,   \* 1: the placement algorithm of the run is work-conserving (round-robin, greedy); 0: partition
+          held, \* Seq over CUs: map ids the dispatchers still account for (sent, completion not yet consumed)
+          ff    \* <<conforming, examined>>: MapWG lines whose offsets are the first-fit choice of CUResource.tla
+tvars == <<lvars, l, wc, held, ff>>
 
 ASSUME HWInit
 
@@ -34,9 +36,9 @@ Is(e) == l <= N /\ Ev.e = e /\ l' = l + 1
 CfgOf(cs) == [i \in 1..Len(cs) |-> [slots |-> cs[i].slots, sregs |-> cs[i].sregs, vregs |-> cs[i].vregs, lds |-> cs[i].lds]]
 EmptyCfg == <<>>
 
-TInit == L_Init(EmptyCfg) /\ l = 1 /\ wc = 1
+TInit == L_Init(EmptyCfg) /\ l = 1 /\ wc = 1 /\ held = <<>> /\ ff = <<0, 0>>
 
-TReset == Is("Reset") /\ L_Reset(CfgOf(Ev.cus)) /\ wc' = Ev.wc
+TReset == Is("Reset") /\ L_Reset(CfgOf(Ev.cus)) /\ wc' = Ev.wc /\ held' = [i \in 1..Len(Ev.cus) |-> {}] /\ UNCHANGED ff
 
 DescOf(ev) ==
   LET ids == {ev.wgs[i][1] : i \in 1..Len(ev.wgs)} IN
@@ -46,14 +48,48 @@ DescOf(ev) ==
 
 LocsOf(ev) == [i \in 1..Len(ev.locs) |-> [simd |-> ev.locs[i][1], s |-> ev.locs[i][2], v |-> ev.locs[i][3], l |-> ev.locs[i][4]]]
 
-TLaunch  == Is("Launch") /\ L_Launch(Ev.k, DescOf(Ev)) /\ UNCHANGED wc
-TStart   == Is("Start") /\ L_Start(Ev.k) /\ UNCHANGED wc
-TMap     == Is("MapWG") /\ L_Map(Ev.m, Ev.k, Ev.w, Ev.c, LocsOf(Ev), Ev.pid, IF Ev.al = 1 THEN {} ELSE {"map_shape"}) /\ UNCHANGED wc
-TTakeMap == Is("TakeMap") /\ L_TakeMap(Ev.m) /\ UNCHANGED wc
-TComplete == Is("Complete") /\ L_Complete(Ev.mid, Ev.c, Range(Ev.ids)) /\ UNCHANGED wc
-TConsume == Is("Consume") /\ L_Consume(Ev.mid) /\ UNCHANGED wc
-TRsp     == Is("Rsp") /\ L_Rsp(Ev.k) /\ UNCHANGED wc
-TTakeRsp == Is("TakeRsp") /\ L_TakeRsp(Ev.k) /\ UNCHANGED wc
+\* ---- model fidelity (no verdict): does the real allocator choose what CUResource.tla's first fit chooses?
+\* The dispatcher-side masks are rebuilt from the map requests it still accounts for, at the allocation
+\* granularity of internal/resource (16 SGPRs, 4 VGPRs per lane, 256 B of LDS).
+HGS == 16  HGV == 4  HGL == 256
+MaskOf(n, regions) == [i \in 1..n |-> IF \E r \in regions : i > r[1] /\ i <= r[1] + r[2] THEN 1 ELSE 0]
+RECURSIVE VFits(_, _, _, _)
+VFits(locs, i, vu, vms) ==     \* vms: VGPR masks per SIMD, earlier wavefronts of this work-group marked
+  IF i > Len(locs) THEN TRUE
+  ELSE LET sd == locs[i].simd + 1
+           o == NextRegion(vms[sd], vu) IN
+       /\ o >= 0 /\ o * HGV = locs[i].v
+       /\ VFits(locs, i + 1, vu, [vms EXCEPT ![sd] = SetRange(@, o, vu, 1)])
+Limited(c) == cfg[c].sregs >= 0 /\ cfg[c].lds >= 0 /\ \A i \in 1..Len(cfg[c].vregs) : cfg[c].vregs[i] >= 0
+FirstFit(ev) ==
+  LET c == ev.c  K == kern[ev.k]  locs == LocsOf(ev)
+      hw == UNION {Wfs(m) : m \in held[c]}
+      smask == MaskOf(cfg[c].sregs \div HGS, {<<Loc(x).s \div HGS, Units(KOf(x).s, HGS)>> : x \in hw})
+      lmask == MaskOf(cfg[c].lds \div HGL, {<<Loc(x).l \div HGL, Units(KOf(x).l, HGL)>> : x \in hw})
+      vms == [sd \in 1..Len(cfg[c].vregs) |->
+                MaskOf(cfg[c].vregs[sd] \div HGV,
+                       {<<Loc(x).v \div HGV, Units(KOf(x).v, HGV)>> : x \in {y \in hw : Loc(y).simd = sd - 1}})]
+      a == AllocS(smask, Len(locs), Units(K.s, HGS), <<>>)
+      lo == NextRegion(lmask, Units(K.l, HGL)) IN
+  /\ a.ok /\ \A i \in 1..Len(locs) : a.offs[i] * HGS = locs[i].s
+  /\ lo >= 0 /\ \A i \in 1..Len(locs) : lo * HGL = locs[i].l
+  /\ VFits(locs, 1, Units(K.v, HGV), vms)
+Examinable(ev) == ev.c \in 1..NCU /\ ev.k \in DOMAIN kern /\ Len(ev.locs) > 0 /\ Limited(ev.c)
+                  /\ \A i \in 1..Len(ev.locs) : ev.locs[i][1] \in 0..(Len(cfg[ev.c].slots) - 1)
+FFNext(ev) == IF ~Examinable(ev) THEN ff
+              ELSE <<ff[1] + (IF FirstFit(ev) THEN 1 ELSE 0), ff[2] + 1>>
+HeldAdd(ev) == IF ev.c \in 1..NCU THEN [held EXCEPT ![ev.c] = @ \cup {ev.m}] ELSE held
+HeldDrop(ids) == [c \in 1..Len(held) |-> held[c] \ ids]
+
+TLaunch  == Is("Launch") /\ L_Launch(Ev.k, DescOf(Ev)) /\ UNCHANGED <<wc, held, ff>>
+TStart   == Is("Start") /\ L_Start(Ev.k) /\ UNCHANGED <<wc, held, ff>>
+TMap     == /\ Is("MapWG") /\ L_Map(Ev.m, Ev.k, Ev.w, Ev.c, LocsOf(Ev), Ev.pid, IF Ev.al = 1 THEN {} ELSE {"map_shape"})
+            /\ ff' = FFNext(Ev) /\ held' = HeldAdd(Ev) /\ UNCHANGED wc
+TTakeMap == Is("TakeMap") /\ L_TakeMap(Ev.m) /\ UNCHANGED <<wc, held, ff>>
+TComplete == Is("Complete") /\ L_Complete(Ev.mid, Ev.c, Range(Ev.ids)) /\ UNCHANGED <<wc, held, ff>>
+TConsume == Is("Consume") /\ L_Consume(Ev.mid) /\ held' = HeldDrop(Head(cuIn).ids) /\ UNCHANGED <<wc, ff>>
+TRsp     == Is("Rsp") /\ L_Rsp(Ev.k) /\ UNCHANGED <<wc, held, ff>>
+TTakeRsp == Is("TakeRsp") /\ L_TakeRsp(Ev.k) /\ UNCHANGED <<wc, held, ff>>
 
 \* The CP sleeps (no event pending).  Under a work-conserving placement it may not leave a work-group
 \* waiting that an idle CU could hold (resources are all returned when a work-group finishes), unless its
@@ -61,17 +97,17 @@ TTakeRsp == Is("TakeRsp") /\ L_TakeRsp(Ev.k) /\ UNCHANGED wc
 \* is resident or in flight (nothing would ever wake it).
 TIdle == /\ Is("Idle")
          /\ Len(toCU) < 4096 => (IF wc = 1 THEN ~Starved ELSE ~Stuck)
-         /\ UNCHANGED <<lvars, wc>>
+         /\ UNCHANGED <<lvars, wc, held, ff>>
 
 \* The harness drained every port, every CU reported everything, no event is pending: every launch
 \* must have been answered.
-TQuiesce == Is("Quiesce") /\ PortsQuiet /\ AllAnswered /\ UNCHANGED <<lvars, wc>>
+TQuiesce == Is("Quiesce") /\ PortsQuiet /\ AllAnswered /\ UNCHANGED <<lvars, wc, held, ff>>
 
 TNext == TReset \/ TLaunch \/ TStart \/ TMap \/ TTakeMap \/ TComplete \/ TConsume \/ TRsp \/ TTakeRsp
          \/ TIdle \/ TQuiesce
 
 TSpec == TInit /\ [][TNext]_tvars
 
-Mark == HWNote(l)                 \* CONSTRAINT: records progress
+Mark == HWNote(l) /\ (l = N + 1 => PrintT(<<"FIRSTFIT", ff[1], ff[2]>>))   \* CONSTRAINT: records progress
 Accepted == HWReport(N)           \* POSTCONDITION
 =============================================================================
